@@ -22,7 +22,7 @@ CHECKS["C13"] = cfg(
 CHECKS["C11"] = cfg(
     "C11", exhaustive=True,
     technique="runtime monitoring: exhaustive decision table over header pairs at 13 encoder/decoder entry points, verdict predicate written from the statement",
-    level_text="The complete table of (protected, unprotected) header contents named by the property (alg, b64, 12 crit lists, shared registered/custom names, either header missing) is run through every encoder constructor, add_recipient, every decoder entry point and verify; each verdict is compared with a predicate derived from the statement. Exhaustive for the table, exploration beyond it.",
+    level_text="The complete table of (protected, unprotected) header contents named by the property (alg, b64, 14 crit lists, shared registered/custom names, either header missing) is run through every encoder constructor, add_recipient, every decoder entry point and verify; each verdict is compared with a predicate derived from the statement. Exhaustive for the table, exploration beyond it.",
     min={"quick": {"accepted": 3000, "rejected": 1000000, "rows_violating_exactly_one_rule": 1000},
          "thorough": {"accepted": 10000, "rejected": 4000000, "rows_violating_exactly_one_rule": 3000}},
     assumptions=["b64-disagreement between recipients is demanded of GeneralJwsEncoder::add_recipient only (the anchor); the general decoder is not judged on it",
@@ -85,7 +85,7 @@ CHECKS["C02"] = cfg(
     technique="runtime monitoring: decision-table oracle over harness-constructed scenarios (own keys, own JWT assembler); accept <=> all conditions; errors must identify falsified conditions",
     level_text="Every scenario is built by the harness so that the truth of each of the 12 conditions (signature, kid/method-id lookup, scope, kid DID vs document, issuer vs method DID, nonce, issuance/expiry bounds at +-1 s, structure, subject-holder mode, status form x mode) is known by construction. validate() must accept exactly when all hold; with AllErrors the reported concerns must equal the falsified credential-side conditions, with FirstError be one of them; signature-side failures must be identified by a matching error family; on acceptance the returned credential, header and custom claims must be those signed. Includes the exhaustive 2^5 credential-side table and verify_signature over two trusted issuers.",
     min={"quick": {"accepted": 800, "rejected:credential-side": 800, "rejected:signature-side": 800, "u_table_rows": 200, "distinct:condition_vectors": 150},
-         "thorough": {"accepted": 20000, "rejected:credential-side": 20000, "rejected:signature-side": 20000, "distinct:condition_vectors": 400}},
+         "thorough": {"accepted": 200000, "rejected:credential-side": 200000, "rejected:signature-side": 200000, "distinct:condition_vectors": 250}},
     assumptions=["validation bounds are always explicit (no wall clock)",
                  "signature-side error families are matched loosely (any family belonging to a falsified condition)"],
 )
@@ -100,7 +100,7 @@ CHECKS["C19"] = cfg(
     thorough=[{"flavour": "checked", "shards": 16, "timeout": 3000},
               {"flavour": "miri", "tier": "quick", "shards": 16, "timeout": 3600, "args": {"scale": 1}}],
     assumptions=["iter_mut_unchecked/head_mut/tail_mut/clear are documented as invariant-breaking and not part of the histories",
-                 "replace(cur, upd) with cur absent and upd's key present may return true (replaced in place) or false (unchanged)"],
+                 "replace(cur, upd) with cur absent and upd's key present follows the list model of DESIGN.md: upd replaces the entry holding its key, flag true"],
 )
 
 CHECKS["C15"] = cfg(
@@ -126,7 +126,7 @@ CHECKS["C03"] = cfg(
     level_text="Presentation tokens are built by the harness against a holder document with a general-purpose, an embedded and a foreign-DID method; each of the 10 conditions (signature, kid/method-id resolution as full id/'#fragment'/bare fragment, scope, nonce, iss == document id, expiry and issuance bounds at +-1 s with nbf-else-iat, vp.id/vp.holder consistency, numeric dates in range) is true or false by construction. validate() must accept exactly when all hold, and on acceptance return the presentation, aud, dates, custom claims and header that were signed.",
     min={"quick": {"accepted": 600, "rejected": 1500, "rejected:signature": 150, "rejected:iss-equals-holder-document": 150, "rejected:scope": 80,
                    "rejected:vp.id-consistent": 100, "rejected:numeric-date-in-range": 100, "distinct:condition_vectors": 60},
-         "thorough": {"accepted": 15000, "rejected": 40000, "distinct:condition_vectors": 150}},
+         "thorough": {"accepted": 200000, "rejected": 500000, "distinct:condition_vectors": 120}},
     assumptions=["validation bounds are always explicit (no wall clock)",
                  "a vp.id present while jti is absent is not judged (latitude)"],
 )
